@@ -151,6 +151,8 @@ def gen_table(rng, n_enums, big=False):
         spec["skip_columns"] = [rng.choice(fields)] if len(fields) > 2 and "fmt" not in spec else []
     if rng.random() < 0.12:
         spec["via_fmt_obj"] = True
+    if rng.random() < 0.1:
+        spec["usersub"] = True       # an object of a user's subclass of PPTable that overrides gen_ch_lines
     if rng.random() < 0.15:
         plain = [f for f in fields if f != "status"]
         spec["wtypes"] = {rng.choice(plain): [rng.randint(0, 4), rng.randint(4, 9)] + (["center"] if rng.random() < 0.4 else [])}
@@ -494,7 +496,7 @@ def generate(rng, tier):
 def _simplify_table(spec):
     for i in range(len(spec.get("records", ()))):
         yield dict(spec, records=spec["records"][:i] + spec["records"][i + 1:])
-    for key in ("header", "footer", "titles", "limits", "nt", "skip_columns", "via_fmt_obj", "fmt"):
+    for key in ("header", "footer", "titles", "limits", "nt", "skip_columns", "via_fmt_obj", "usersub", "fmt"):
         if spec.get(key) not in (None, False, []):
             yield {k: v for k, v in spec.items() if k != key}
     fmt = spec.get("fmt")
